@@ -34,7 +34,7 @@ SEC == <<194, 167>>          \* UTF-8 of the section sign used by the legacy Min
 QHeader(v) == CASE v = 1 -> "n" [] v = 2 -> "print\n" [] v = 3 -> "statusResponse\n"
 \* alt: which spelling of the named variables the server uses: "no" primary, "yes" alternate, "both" (then the primary one names
 \* the field - as in the reference implementation - and the alternate one is an ordinary unused variable)
-QuakeShapes == [ver : {1, 2, 3}, alt : {"no", "yes", "both"}, version : {"none", "version", "*version"}, extras : {0, 2},
+QuakeShapes == [ver : {1, 2, 3}, alt : {"no", "yes", "both"}, version : {"none", "version", "*version", "both"}, extras : {0, 2},
                 players : Counts, addr : BOOLEAN, spaces : BOOLEAN]
 QuakeOk(s) == (s.ver = 1 => ~s.addr) /\ (s.spaces => s.players > 0)
 QuakeKnown == <<"hostname", "sv_hostname", "mapname", "map", "maxclients", "sv_maxclients", "version", "*version">>
@@ -64,7 +64,8 @@ Quake(s) ==
              \o QKV(IF s.alt = "yes" THEN "map" ELSE "mapname", "map", "text")
              \o Cat([i \in 1 .. s.extras |-> <<Txt("\\"), Fkey("xk" \o X(i), "\\\n", "keys", QuakeKnown), Txt("\\"), Fx("xv" \o X(i), "text", "\\\n")>>])
              \o QKV(IF s.alt = "yes" THEN "sv_maxclients" ELSE "maxclients", "max", "dec_u8")
-             \o If(s.version # "none", QKV(s.version, "version", "text"))
+             \o If(s.version # "none", QKV(IF s.version = "both" THEN "version" ELSE s.version, "version", "text"))
+             \o If(s.version = "both", QKV("*version", "version2", "text"))
              \o <<Txt("\n")>>
              \o Cat([i \in 1 .. s.players |-> QPlayer(s, i)]),
    expect |-> <<E(<<"name">>, "host"), E(<<"map">>, "map"), E(<<"players_maximum">>, "max"),
@@ -72,6 +73,7 @@ Quake(s) ==
                 IF s.version = "none" THEN En(<<"game_version">>) ELSE E(<<"game_version">>, "version"),
                 El(<<"players">>), Eo(<<"unused_entries">>)>>
               \o [i \in 1 .. s.extras |-> Ek(<<"unused_entries">>, "xk" \o X(i), "xv" \o X(i))]
+              \o If(s.version = "both", <<E(<<"unused_entries", "*version">>, "version2")>>)
               \o If(s.alt = "both", <<E(<<"unused_entries", "sv_hostname">>, "host2"), E(<<"unused_entries", "map">>, "map2"),
                                       Et(<<"unused_entries", "sv_maxclients">>, "max2", "str")>>)
               \o Cat([i \in 1 .. s.players |-> QPlayerExpect(s, i)]),
@@ -81,9 +83,12 @@ Quake(s) ==
 (* GameSpy 1: \key\value ... in 1..n parts, each ending \queryid\Q.P and the last one carrying \final\ *)
 Gs1Known == <<"hostname", "mapname", "maptitle", "AdminEMail", "AdminName", "admin", "password", "gametype", "gamever",
               "maxplayers", "minplayers", "tournament", "final", "queryid">>
+\* admin: which spelling of the administrator's name the server uses: "AdminName" (Unreal Engine's UdpServerQuery), "admin", or
+\* "both" - then, as for the Quake spellings above, the primary one (AdminName) names the field and `admin` is one of the "other
+\* variables" and stays in the unused entries (D19)
 Gs1Shapes == [players : Counts, extras : {0, 2}, opt : BOOLEAN, pname : {"player", "playername"}, parts : PartCounts,
-              pw : {"bool", "num"}]
-Gs1Ok(s) == TRUE
+              pw : {"bool", "num"}, admin : {"AdminName", "admin", "both"}]
+Gs1Ok(s) == (~s.opt => s.admin = "AdminName")
 KV(key, f, ty) == <<Txt("\\" \o key \o "\\"), Fx(f, ty, "\\")>>
 Gs1Player(s, i) ==
   LET x == X(i) n == X(i - 1) IN
@@ -104,8 +109,10 @@ Gs1Groups(s) ==
     KV("gamever", "gamever", "text"), KV("maxplayers", "max", "dec_u32"),
     <<Txt("\\password\\"), IF s.pw = "bool" THEN Fopts("password", <<"true", "false", "True", "False">>)
                                           ELSE Fopts("password", <<"0", "1", "2">>)>>>>
-  \o If(s.opt, <<KV("maptitle", "maptitle", "text"), KV("AdminEMail", "email", "text"), KV("AdminName", "admin", "text"),
+  \o If(s.opt, <<KV("maptitle", "maptitle", "text"), KV("AdminEMail", "email", "text"),
+                 KV(IF s.admin = "admin" THEN "admin" ELSE "AdminName", "admin", "text"),
                  KV("minplayers", "min", "dec_u8"), <<Txt("\\tournament\\"), Fopts("tournament", <<"true", "false", "True">>)>>>>)
+  \o If(s.opt /\ s.admin = "both", <<KV("admin", "admin2", "text")>>)
   \o [i \in 1 .. s.extras |-> <<Txt("\\"), Fkey("xk" \o X(i), "\\_", "keys", Gs1Known), Txt("\\"), Fx("xv" \o X(i), "text", "\\")>>]
   \o Cat([i \in 1 .. s.players |-> Gs1Player(s, i)])
 Gs1(s) ==
@@ -117,6 +124,7 @@ Gs1(s) ==
                   ELSE <<En(<<"map_title">>), En(<<"admin_contact">>), En(<<"admin_name">>), En(<<"players_minimum">>),
                          Ec(<<"tournament">>, TRUE)>>)
               \o <<El(<<"players">>), Eo(<<"unused_entries">>)>>
+              \o If(s.opt /\ s.admin = "both", <<E(<<"unused_entries", "admin">>, "admin2")>>)
               \o [i \in 1 .. s.extras |-> Ek(<<"unused_entries">>, "xk" \o X(i), "xv" \o X(i))]
               \o Cat([i \in 1 .. s.players |-> Gs1PlayerExpect(s, i)]),
    entry |-> "gs1"]
